@@ -293,7 +293,7 @@ func init() {
 		}
 		rep.Rule = "seeded label-free, position-independent statement sequences A,B(,C) from the clean pool (instructions of every supported form, DB/DW/DD, RESB), one mode per program; " +
 			"A, B, C and A;B;C are assembled separately by the real pipeline and out(A;B;C) must equal out(A)++out(B)++out(C) (pairs, triples, and a single statement inserted at every position of 20-statement programs); " +
-			"the same with a statement gosk refuses (12 kinds) inserted between two sequences, the second of which may start with the statement the first ended with; the same with a RESB of 64 KiB, 128 KiB, 192 KiB -6..+2 bytes as A, so that B stands at every alignment around those offsets of the image; non-trivial = all parts accepted without refusal; distinct = (shape, mode, kind of the first statement of B) cells"
+			"the same for 2-5 statements sharing one operand text (the same memory operand with and without displacement as r/m of different registers and opcode extensions), each alone against all in a row; the same with a statement gosk refuses (12 kinds) inserted between two sequences, the second of which may start with the statement the first ended with; the same with a RESB of 64 KiB, 128 KiB, 192 KiB -6..+2 bytes as A, so that B stands at every alignment around those offsets of the image; non-trivial = all parts accepted without refusal; distinct = (shape, mode, kind of the first statement of B) cells"
 		outs := RunCases(env, cases)
 		for i := 0; i < 3 && i < len(cases); i++ {
 			c := cases[i].(*ConcatCase)
